@@ -36,8 +36,11 @@ def gen_history(rng, schema, n_ops):
     for _ in range(rng.randrange(2, 4)):
         push(FO.gen_track_create(rng, st))
     for _ in range(n_ops):
-        if rng.random() < 0.5:
+        r = rng.random()
+        if r < 0.47:
             push(FO.gen_crate_op(rng, st, hostile=False))
+        elif r < 0.55:
+            push(FO.gen_foreign_reorder(rng, st))
         else:
             push(FO.gen_membership_op(rng, st))
     return ops, metas
